@@ -64,6 +64,10 @@ out += ["", "%d runs of seeded changes against checks (a change seeded for C01 i
         "* `C18-aggsigdb-blocked-waiters-share-clone` (readers blocked on one key when it is stored all receive the same object): the alias walker only queried after the store; new environment variant `+w` parks two readers before the first `Store` and walks their answers (the hostile-caller scribbling of the C17 driver sees it as well).",
         "* `C08-aggregate-scratch-stale-after-error` (pooled scratch buffer of `ThresholdAggregate` not emptied on the error path): every aggregation in the driver was independent; a refused aggregation (one partial that is not a curve point) now precedes every qualified one.",
         "* `C01-qbft-wire-single-value-unhashed` (a single attached value filed under the signed hash without re-hashing): C01's check now also runs the consensus admission stream (agreeing on a hash means storing the same object only if values are bound to their hashes).",
+        "* `C04-round-timer-cached-per-duty-type` (the wrapper memoises the round timer per duty type; the default timer captures the duty's slot): timers were only driven through `timer.GetRoundTimerFunc`; the wrapper stream now wraps the component's timer factory (hook `WrapTimerFuncVerif`) and reports `conswrap:round_timer_of_other_duty`; C04's check runs it.",
+        "* `C10-parsigex-verify-workers` (entries beyond the fourth of a received set are never verified) was first reported only through translator T-vapi (no input): peer sets had at most three entries; the generator now sends sets of 6–8 validators with one bad entry at any position.",
+        "* `C02-instance-io-recycled-with-stale-recv` made the admission driver block inside `handle` (a recycled receive buffer fuller than the driver knew): `handle` calls are now bounded (`qbftwire:handle_blocked`); the change itself is reported as a broken correspondence of the wrapper stream.",
+        "* `C06-cancel-drops-sibling-waiters` made the dutydb driver crawl for 25 minutes (every blocked waiter waited out its time-out): all drivers now stop generating after 200 violations that are not known findings.",
         ""]
 txt = "\n".join(out)
 p = '/verif/DESIGN.md'
